@@ -104,24 +104,34 @@ func c16readthrough(p *Prog, r *Report) {
 					}
 				}
 			}
-			// every return depends on both results (phi of cache hit / db fallback)
+			// the cache hit is served by some return, the database's answer by some return (the checks
+			// above decide on which paths); nothing else is returned
+			served, dbServed := false, false
 			for _, b := range fn.Blocks {
 				if ret, isRet := b.Instrs[len(b.Instrs)-1].(*ssa.Return); isRet && (b.Index == 0 || len(b.Preds) > 0) {
-					if !depOnValue(ret.Results[0], mc) {
-						ok = false
-						detail = "the returned value does not come from the in-memory getter"
+					v := ret.Results[0]
+					m, d := depOnValue(v, mc), fromDb(v)
+					if m {
+						served = true
 					}
-					found := false
-					for _, d := range db {
-						if dv, isV := d.(*ssa.Call); isV && depOnValue(ret.Results[0], dv) {
-							found = true
+					if d {
+						dbServed = true
+					}
+					if !m && !d {
+						if c, isC := v.(*ssa.Const); !isC || !c.IsNil() {
+							ok = false
+							detail = "a returned value comes neither from the in-memory getter nor from the database"
 						}
 					}
-					if !found {
-						ok = false
-						detail = "the db getter's result is not returned: an item evicted from the cache is no longer readable"
-					}
 				}
+			}
+			if !served {
+				ok = false
+				detail = "the returned value does not come from the in-memory getter"
+			}
+			if !dbServed {
+				ok = false
+				detail = "the db getter's result is not returned: an item evicted from the cache is no longer readable"
 			}
 		}
 		r.Check(ok, rule, "BadgerStore."+name, p.pos(fn.Pos()), fnName(fn), "read-through to the database on a cache miss", detail)
